@@ -503,6 +503,13 @@ impl<'a, 'tcx> Cx<'a, 'tcx> {
                     }
                 };
                 o.push(("rkind", s(kind)));
+                if tcx.coroutine_kind(rd).is_some() {
+                    // number of states of the polled coroutine: 3 (Unresumed/Returned/Panicked)
+                    // means it has no suspension point, i.e. its poll() is Ready on first call
+                    if let Some(layout) = tcx.mir_coroutine_witnesses(rd) {
+                        o.push(("coroutine_variants", J::I(layout.variant_fields.len() as i64)));
+                    }
+                }
                 o.push(("rpath", s(nice(tcx, rd))));
                 o.push(("rshort", s(short(tcx, rd))));
                 o.push(("rkrate", s(tcx.crate_name(rd.krate).to_string())));
